@@ -164,7 +164,11 @@ func runC20(c c20Case) ev.Outcome {
 				reloadedED = nil
 				for i := range storedED {
 					var k edkeygen.LocalPartySaveData
-					if err := json.Unmarshal(jsonOf(storedED[i]), &k); err != nil {
+					// written with one process-global default curve, read back with the other (the documents name their curve)
+					setGlobalCurve(c.EdDSA, step%2 == 0)
+					doc := jsonOf(storedED[i])
+					setGlobalCurve(c.EdDSA, step%2 != 0)
+					if err := json.Unmarshal(doc, &k); err != nil {
 						return fail("reload", "stored key data does not load back: %v", err)
 					}
 					if !bytes.Equal(jsonOf(k), snap[i]) {
@@ -179,7 +183,11 @@ func runC20(c c20Case) ev.Outcome {
 				reloadedEC = nil
 				for i := range storedEC {
 					var k eckeygen.LocalPartySaveData
-					if err := json.Unmarshal(jsonOf(storedEC[i]), &k); err != nil {
+					// written with one process-global default curve, read back with the other (the documents name their curve)
+					setGlobalCurve(c.EdDSA, step%2 == 0)
+					doc := jsonOf(storedEC[i])
+					setGlobalCurve(c.EdDSA, step%2 != 0)
+					if err := json.Unmarshal(doc, &k); err != nil {
 						return fail("reload", "stored key data does not load back: %v", err)
 					}
 					if !bytes.Equal(jsonOf(k), snap[i]) {
